@@ -22,10 +22,11 @@ Inductive mval := MAtom (z : Z) | MObj (o : id).
 Record meta := Met { m_data : list (name * mval); m_inv : list name }.
 Record spec := Spc { sp_value : option id; sp_rest : N }.
 Record devcfg := Dev { dc_cfg : N; dc_stage : option Z; dc_specs : list spec }.
-Inductive attrv := AVal (t tok : N) | ARef (t : N) (r : name) | AGraph (g : id) | AGraphs (gs : list id).
+Inductive attrv := AVal (t tok : N) | ARef (t : N) (r : name) | AGraph (g : id) | AGraphs (gs : list id)
+                 | ATensor (t : id).      (* a TENSOR attribute: the tensor object *)
 Record attr := Att { a_name : name; a_val : attrv; a_doc : option name }.
 Record value := Val { v_name : option name; v_type : option id; v_shape : option id; v_doc : option name;
-                      v_const : option N; v_mp : id; v_meta : id }.
+                      v_const : option id; v_mp : id; v_meta : id }.
 Record node := Nod { n_name : option name; n_domain : name; n_op : name; n_overload : name;
                      n_version : option Z; n_inputs : list (option id); n_outputs : list id;
                      n_attrs : list (name * id); n_doc : option name; n_mp : id; n_meta : id;
@@ -40,24 +41,26 @@ Record model := Mod { md_graph : id; md_funcs : list id; md_info : N; md_mp : id
 Inductive cell :=
 | CValue (v : value) | CNode (n : node) | CGraph (g : graph) | CShape (s : shape) | CType (t : ty)
 | CDict (d : list (name * name))       (* metadata_props dicts and opset_imports dicts *)
-| CMeta (m : meta) | CAttr (a : attr) | CObj (o : list Z) | CFunc (f : func) | CModel (m : model).
+| CMeta (m : meta) | CAttr (a : attr) | CObj (o : list Z) | CFunc (f : func) | CModel (m : model)
+| CTensor (nm : option name).   (* a tensor object: immutable data (its identity) and a mutable name; never copied *)
 
 Definition oid (o : option id) : list id := match o with Some x => [x] | None => [] end.
 Definition mval_ids (kv : name * mval) : list id := match snd kv with MObj o => [o] | MAtom _ => [] end.
 Definition dev_ids (d : devcfg) : list id := flat_map (fun s => oid (sp_value s)) (dc_specs d).
 Definition attrv_ids (a : attrv) : list id :=
   match a with AGraph g => [g] | AGraphs gs => gs | _ => [] end.
+Definition attrv_tensor (a : attrv) : list id := match a with ATensor t => [t] | _ => [] end.
 
 (* every object reference held by a cell *)
 Definition links (c : cell) : list id :=
   match c with
-  | CValue v => oid (v_type v) ++ oid (v_shape v) ++ [v_mp v; v_meta v]
+  | CValue v => oid (v_type v) ++ oid (v_shape v) ++ [v_mp v; v_meta v] ++ oid (v_const v)
   | CNode n => flat_map oid (n_inputs n) ++ n_outputs n ++ map snd (n_attrs n) ++ [n_mp n; n_meta n]
                ++ flat_map dev_ids (n_dev n)
   | CGraph g => g_inputs g ++ g_outputs g ++ map snd (g_inits g) ++ g_nodes g ++ [g_opset g; g_mp g; g_meta g]
-  | CShape _ | CType _ | CDict _ | CObj _ => []
+  | CShape _ | CType _ | CDict _ | CObj _ | CTensor _ => []
   | CMeta m => flat_map mval_ids (m_data m)
-  | CAttr a => attrv_ids (a_val a)
+  | CAttr a => attrv_ids (a_val a) ++ attrv_tensor (a_val a)
   | CFunc f => f_graph f :: map snd (f_attrs f)
   | CModel m => md_graph m :: md_funcs m ++ [md_mp m; md_meta m]
   end.
@@ -267,7 +270,7 @@ Section Cloner.
       match a_val a with
       | AGraph g => g' <- rec_graph g ;; alloc (CAttr (Att (fst ka) (AGraph g') (a_doc a)))
       | AGraphs gs => gs' <- mapM rec_graph gs ;; alloc (CAttr (Att (fst ka) (AGraphs gs') (a_doc a)))
-      | AVal _ _ | ARef _ _ => ret (snd ka)       (* shared *)
+      | AVal _ _ | ARef _ _ | ATensor _ => ret (snd ka)       (* shared *)
       end.
 
     Definition clone_output (o : id) : M id :=
@@ -347,7 +350,7 @@ Inductive cmval := CMAtom (z : Z) | CMObj (l : option (list Z)).
 Record cmeta := CMet { cm_data : list (name * cmval); cm_inv : list name }.
 Record cvalue := CVal { cv_name : option name; cv_type : option (option ty);
                         cv_shape : option (option (list dim * list (option name)));
-                        cv_doc : option name; cv_const : option N;
+                        cv_doc : option name; cv_const : option id;
                         cv_mp : option (list (name * name)); cv_meta : option cmeta }.
 Inductive cgraph :=
 | CGr (nm : option name) (ins : list (option cvalue)) (outs : list (option (option name)))
@@ -362,6 +365,7 @@ with cnode :=
 | CNoBad
 with cattr :=
 | CAV (nm : name) (t tok : N) (doc : option name)
+| CAT (nm : name) (t : id) (tname : option (option name)) (doc : option name)   (* tensor identity and its current name *)
 | CAR (nm : name) (t : N) (r : name) (doc : option name)
 | CAG (nm : name) (g : cgraph) (doc : option name)
 | CAGs (nm : name) (gs : list cgraph) (doc : option name)
@@ -410,6 +414,7 @@ Section Canon.
       | Some (CAttr x) =>
           match a_val x with
           | AVal t tok => CAV (a_name x) t tok (a_doc x)
+          | ATensor t => CAT (a_name x) t (match h t with Some (CTensor nm) => Some nm | _ => None end) (a_doc x)
           | ARef t r => CAR (a_name x) t r (a_doc x)
           | AGraph g => CAG (a_name x) (rec_g g) (a_doc x)
           | AGraphs gs => CAGs (a_name x) (map rec_g gs) (a_doc x)
@@ -486,7 +491,7 @@ Inductive owner_kind := OValue | ONode | OGraph.
 Inductive op :=
 | VSetName (v : id) (n : option name)
 | VSetDoc (v : id) (n : option name)
-| VSetConst (v : id) (t : option N)
+| VSetConst (v : id) (t : option id)
 | VSetDtype (v : id) (dt : N)
 | VSetType (v : id) (t : option ty)                (* value.type = <new type object> / None *)
 | VSetShapeDim (v : id) (i : nat) (d : dim)         (* value.shape[i] = d *)
@@ -503,7 +508,9 @@ Inductive op :=
 | GAppendNode (g : id) (opn : name) (ins : list (option id)) (outs : list name) (nm : name)
                                                      (* graph.append(Node("", opn, ins, num_outputs=len(outs), name=nm)) with named outputs *)
 | GRemoveNode (g : id) (n : id)                     (* graph.remove(n) *)
-| GOpsetSet (g : id) (k s : name).                  (* graph.opset_imports[k] = s *)
+| GOpsetSet (g : id) (k s : name)                   (* graph.opset_imports[k] = s *)
+| ASetDoc (a : id) (d : option name)                (* attr.doc_string = d   (in-place edit of an Attr object) *)
+| ASetName (a : id) (n : name).                     (* attr.name = n         (the owner's dict key is not updated) *)
 
 Fixpoint set_dtype (t : ty) (dt : N) : ty :=
   match t with
@@ -579,7 +586,18 @@ Fixpoint alloc_values (h : heap) (k : list name) : heap * list id :=
 
 Definition apply_op (h : heap) (o : op) : heap * res unit :=
   match o with
-  | VSetName v n => with_value h v (fun x => (hwrite h v (CValue (set_v_name x n)), Ok tt))
+  | VSetName v n =>
+      (* Value.name setter (for a value that is not an initializer): "rename the backing constant tensor", then self *)
+      with_value h v (fun x =>
+        let h1 := hwrite h v (CValue (set_v_name x n)) in
+        if option_eqb N.eqb (v_name x) n then (h, Ok tt)
+        else match v_const x with
+             | Some t => match cells h t with
+                         | Some (CTensor _) => (hwrite h1 t (CTensor n), Ok tt)
+                         | _ => (h1, Ok tt)
+                         end
+             | None => (h1, Ok tt)
+             end)
   | VSetDoc v n => with_value h v (fun x => (hwrite h v (CValue (set_v_doc x n)), Ok tt))
   | VSetConst v t => with_value h v (fun x => (hwrite h v (CValue (set_v_const x t)), Ok tt))
   | VSetDtype v dt =>
@@ -695,6 +713,16 @@ Definition apply_op (h : heap) (o : op) : heap * res unit :=
         | Some (CDict l) => (hwrite h (g_opset x) (CDict (dict_set N.eqb k s l)), Ok tt)
         | _ => (h, Raise OtherError)
         end)
+  | ASetDoc a d =>
+      match cells h a with
+      | Some (CAttr x) => (hwrite h a (CAttr (Att (a_name x) (a_val x) d)), Ok tt)
+      | _ => (h, Raise OtherError)
+      end
+  | ASetName a n =>
+      match cells h a with
+      | Some (CAttr x) => (hwrite h a (CAttr (Att n (a_val x) (a_doc x))), Ok tt)
+      | _ => (h, Raise OtherError)
+      end
   end.
 
 (* every id an operation mentions (its target and its object arguments) *)
@@ -708,7 +736,11 @@ Definition op_ids (o : op) : list id :=
   | GSetName g _ | GOpsetSet g _ _ => [g]
   | GAppendNode g _ ins _ _ => g :: flat_map oid ins
   | GRemoveNode g n => [g; n]
+  | ASetDoc a _ | ASetName a _ => [a]
   end.
+
+(* shared immutable objects an operation refers to (they only have to exist; they belong to neither side) *)
+Definition op_refs (o : op) : list id := match o with VSetConst _ t => oid t | _ => [] end.
 
 Fixpoint apply_ops (h : heap) (l : list op) : heap :=
   match l with [] => h | o :: r => apply_ops (fst (apply_op h o)) r end.
